@@ -279,7 +279,7 @@ MANIFEST_TEXT = {
         text="TLC evaluates the GB/T 32905 definition (SM3.tla, anchored by the standard's examples) on every recorded sm3_hash event of the real "
              "library: every length 0..300 (quick) / 0..4096 (thorough) in several content classes with the machine state carried across the session, "
              "single-bit messages over three blocks, random multi-block messages, purity sequences; plus an exhaustive toy model (MC_SM3) showing that the "
-             "code-shaped padding loop equals the standard padding for every length 0..1100 and giant bit lengths, and that block iteration equals the definition for every split. Thorough tier: additionally one message of more than 2^32 bytes (block indices beyond 2^26) through the block observer, with Gen.tla addressing bytes by (block, offset).",
+             "code-shaped padding loop equals the standard padding for every length 0..1100 and giant bit lengths, and that block iteration equals the definition for every split. Thorough tier: additionally one message of more than 2^32 bytes (block indices beyond 2^26) through the block observer, with Gen.tla addressing bytes by (block, offset). A second plan (PlanSM3) SOLVES for blocks whose round 0 feeds a special word (0, 2^i, 2^i+-1) into P0, register A or P1 -- as first and as second block --; SM3.tla classifies them itself (crafted-value).",
         note="Trusted: TLC/SANY, CommunityModules (Json, IOUtils, Bitwise), the transcription of GB/T 32905 in SM3.tla (checked by ASSUMEd vectors on every run), the harness's logging.",
         technique="TLA+ trace validation with TLC (SM3 machine) + TLC exhaustive toy model of padding/iteration",
     ),
@@ -295,7 +295,7 @@ MANIFEST_TEXT["C02"] = dict(
 MANIFEST_TEXT["C07"] = dict(
     text="Every recorded Sm4CipherMode encrypt/decrypt event (every length 0..70 quick / 0..200 thorough x 4 modes x both directions, carry/wrap IVs, error cases, "
          "OpenSSL corpus) is judged by BlockModes.tla instantiated with SM4 (anchored by 36 OpenSSL-made mode vectors); the same BlockModes module is model-checked "
-         "exhaustively over a toy cipher for every mode, key, IV and data string (round trip, lengths, total decryption, IV rule, counter law) with a negative control.",
+         "exhaustively over a toy cipher for every mode, key, IV and data string (round trip, lengths, total decryption, IV rule, counter law) with a negative control. Inputs of 2^16 bytes and more (all modes, both directions) are judged with the LOCAL form of the modes -- one equation per block, stated with the neighbouring blocks of input and output -- whose equivalence with the recursive definitions MC_Modes checks on the toy cipher for every candidate output.",
     note="Trusted: TLC/SANY, CommunityModules, the transcription of the modes in BlockModes.tla (OpenSSL vectors as anchors), harness logging. Where the property is silent "
          "(inconsistent PKCS#7 padding with a valid last byte) both outcomes are allowed.",
     technique="TLA+ trace validation with TLC (mode state machines) + exhaustive toy model of the parametric mode module",
@@ -305,14 +305,14 @@ MANIFEST_TEXT["C08"] = dict(
          "anchors). TLC enumerates EVERY composition of every total <= 8 (quick) / <= 12 (thorough) into request sizes with interspersed zero-length requests (PlanZUC); each "
          "is replayed on a real generator and every request is judged against the specification state carried through the session (TraceZUC), plus long streams with random "
          "splits, structured and single-bit keys/IVs. Toy models: Mersenne arithmetic (spec form and code form) for all operands, and refinement of the request layer to the "
-         "word-at-a-time stream for all compositions. The driver also crafts (key, IV) pairs by a meet-in-the-middle search so that one addition of the first initialisation round sums to exactly 2^31-1 / 2^31 / 2^31+1; ZUC.tla classifies such sessions itself (FirstRoundBoundary; class required non-empty).",
+         "word-at-a-time stream for all compositions. The driver also crafts (key, IV) pairs by a meet-in-the-middle search so that one addition of the first initialisation round sums to exactly 2^31-1 / 2^31 / 2^31+1; ZUC.tla classifies such sessions itself (FirstRoundBoundary; class required non-empty). One generator is run for 2^27 (thorough 2^28) words: the stretches between judged windows are skipped, the register after each skip is checked by LFSR skip-ahead (ZUCJump.tla: x^n modulo the feedback polynomial over GF(2^31-1); MC_ZUCJump = n single steps), the two memory words of F are read through a read-only hook, and the words around every 2^k mark are judged.",
     note="Trusted: TLC/SANY, CommunityModules, the transcription of ZUC v1.6 in ZUC.tla (official vectors as ASSUMEs), harness logging.",
     technique="TLA+ trace validation with TLC (generator state machine, TLC-enumerated request compositions) + exhaustive toy models",
 )
 MANIFEST_TEXT["C18"] = dict(
     text="Every recorded 128-EEA3 / 128-EIA3 call (every LENGTH 0..600 in the thorough tier, a boundary-heavy subset in quick; all bearers and directions; involution and "
          "bit-dependence sequences; random keys/messages) is judged by EEA3.tla (3GPP test sets as anchors) over ZUC.tla; the word-level mask/shift/extraction helpers are "
-         "model-checked against their bit-level meaning for every argument (MC_EEA). Crafted (key, COUNT, BEARER, DIRECTION) whose derived IV puts an addition of the first initialisation round on the reduction boundary (classified by the specification), and messages of 40 000 - 65 504 bits.",
+         "model-checked against their bit-level meaning for every argument (MC_EEA). Crafted (key, COUNT, BEARER, DIRECTION) whose derived IV puts an addition of the first initialisation round on the reduction boundary (classified by the specification), and messages of 40 000 - 65 504 bits. LENGTH 0 for both functions, LENGTH up to 200 003 bits (thorough 300 001) -- far beyond the 3GPP maximum --, extreme COUNT / BEARER / DIRECTION.",
     note="Trusted: TLC/SANY, CommunityModules, the transcription of TS 35.221 in EEA3.tla (official test sets as ASSUMEs), harness logging.",
     technique="TLA+ trace validation with TLC + exhaustive model of the word-level helpers",
 )
@@ -335,14 +335,14 @@ MANIFEST_TEXT["C04"] = dict(
 MANIFEST_TEXT["C05"] = dict(
     text="Every recorded encrypt call runs under the RNG hook; TLC recomputes the exact ciphertext from GB/T 32918.4 (SM2.tla) for the observed/scripted k in both orders and both C1 "
          "encodings (Annex example, lengths 1..300 incl. every klen mod 32 class, zero/leading-zero messages, long messages), judges kdf(z, klen) for klen 1..300, and the library must "
-         "decrypt its own and the specification's ciphertexts (PlanSM2Enc) to the original message.",
+         "decrypt its own and the specification's ciphertexts (PlanSM2Enc) to the original message. The plan also solves for VALID curve points whose x^2, x^2+a or y^2 sit on a reduction boundary of the word arithmetic (y^2: a cubic is solved in the specification, Cubic.tla / MC_Cubic) and C05 decrypts ciphertexts for them; one message at the top of the length range (2^16 bytes) is encrypted as the GM/T 0009 SEQUENCE and compared byte for byte.",
     note="Trusted: as C03 (GM/T 0003.5 Annex ciphertext as ASSUME).",
     technique="TLA+ trace validation with TLC at real parameters (exact ciphertext differential) + spec-made ciphertexts replayed on the library",
 )
 MANIFEST_TEXT["C06"] = dict(
     text="Fault enumeration judged by the specification: for valid ciphertexts every single-bit flip (prefix / C1 / body), every truncation length, wrong format flags, extension, other key, "
          "replaced C1; plus ciphertexts CRAFTED by the specification (PlanSM2Enc) whose C3 is valid for the point the library would compute, so that only the C1 validation can reject: "
-         "coordinates >= p, off-curve (invalid-curve) points, non-residue compressed x. Rule: outcome must equal SM2.tla's Decrypt (hybrid prefixes and empty bodies: either), panic is a deviation.",
+         "coordinates >= p, off-curve (invalid-curve) points, non-residue compressed x. Rule: outcome must equal SM2.tla's Decrypt (hybrid prefixes and empty bodies: either), panic is a deviation. Every value of the C1 tag byte is substituted (02/03 in front of an uncompressed C1, with the y bytes kept or replaced), not only the eight single-bit flips.",
     note="Trusted: as C03.",
     technique="fault enumeration with TLA+ trace validation (TLC) and specification-crafted invalid-curve ciphertexts",
 )
@@ -350,7 +350,7 @@ MANIFEST_TEXT["C15"] = dict(
     text="The agreement is specified as four actions with a channel adversary. E1: on a toy group every key pair, ephemeral pair and tamper choice is explored (MC_SM2Kex: honest => both "
          "accept and agree; acceptance => everything received was authentic; invalid ephemeral point => receiver fails; negative control). At real size TLC enumerates all 16 subsets of "
          "{RA,RB,SB,SA} x 5 tamper kinds (PlanKex); the driver runs each on real keys under the RNG hook and every step is judged from its logged inputs against GB/T 32918.3 "
-         "(w = 127, one-byte tags): exact K, S_B, S_A on honest runs (klen 1..200, the GM/T 0003.5 Annex example with scripted rA, rB), rejection otherwise.",
+         "(w = 127, one-byte tags): exact K, S_B, S_A on honest runs (klen 1..200, the GM/T 0003.5 Annex example with scripted rA, rB), rejection otherwise. Further crafted runs: t_B = 0 (responder key tied to its ephemeral scalar), and the SAME pair of Exchange objects used for three consecutive runs.",
     note="Trusted: as C03 (GM/T 0003.5 Annex key agreement values as ASSUMEs), the Exchange state accessor hook.",
     technique="TLC exhaustive protocol model with channel adversary + TLA+ trace validation of TLC-planned tamper runs at real parameters",
 )
@@ -358,7 +358,7 @@ MANIFEST_TEXT["C19"] = dict(
     text="SM2Codec.tla specifies SEC1 compressed/uncompressed/hybrid point encodings, hex, the SPKI and PKCS#8 DER documents, PEM armor and the GM/T 0009 ciphertext SEQUENCE with a DER codec; "
          "it is anchored on every run to OpenSSL-3.0-made documents (SPKI/PKCS#8 DER+PEM, 18 DER ciphertexts decoded, re-encoded byte-identically and decrypted). Every recorded encoder output "
          "must equal the specification's bytes; every decoder outcome on canonical, malformed (wrong length, off-curve, coordinates >= p, bad prefix, truncated DER) and OpenSSL-made input must "
-         "match; ASN.1 ciphertexts are produced under the RNG hook with ephemeral scalars SEARCHED so that C1.x / C1.y have leading zero bytes and compared byte-exactly.",
+         "match; ASN.1 ciphertexts are produced under the RNG hook with ephemeral scalars SEARCHED so that C1.x / C1.y have leading zero bytes and compared byte-exactly. Key documents in the other framings OpenSSL writes (compressed public key in SPKI / PKCS#8, ECPrivateKey without publicKey) are assembled byte by byte and judged by templates of the specification; PEM with CRLF line endings and the FromStr path; ciphertexts whose DER lengths need three octets.",
     note="Trusted: as C03, plus the committed OpenSSL corpus (not a live OpenSSL). For DER/PEM inputs outside the canonical framing the specification only requires 'no panic; a decoded key is valid'.",
     technique="TLA+ trace validation with TLC (codec specification anchored to OpenSSL documents), searched boundary ephemeral points via the RNG hook",
 )
@@ -367,7 +367,7 @@ MANIFEST_TEXT["C11"] = dict(
          "against L0 on toy curves for every pair of Jacobian representations and every scalar incl. 0, n and values above n; Montgomery mul/add/sub at toy word size for all primes and "
          "operands; negative configurations (the pinned commit's point_add) are refuted. At real size every recorded point operation (equal / opposite / re-randomised / infinity operands, "
          "scalars 0, 1, n-1, n, n+1..n+40, 2^256-1, single-byte scalars through g_mul), every field operation mod p and mod n on boundary-limb / near-modulus / random canonical operands, "
-         "and ALL 32x255 fixed-base table entries (walked by the recurrence entry(i,b) = entry(i,b-1) + entry(i,1), entry(i+1,1) = [256]entry(i,1)) are judged on denotations. PlanField solves for operands whose Montgomery product lands in [m, 2^256), equals m - 2^(64j), or 0 / m; operand pairs are solved so that the raw 256-bit sum / difference has patterned limbs; representations with special stored Z; trait-level products with stored operands 1, 2, p-1.",
+         "and ALL 32x255 fixed-base table entries (walked by the recurrence entry(i,b) = entry(i,b-1) + entry(i,1), entry(i+1,1) = [256]entry(i,1)) are judged on denotations. PlanField solves for operands whose Montgomery product lands in [m, 2^256), equals m - 2^(64j), or 0 / m; operand pairs are solved so that the raw 256-bit sum / difference has patterned limbs; representations with special stored Z; trait-level products with stored operands 1, 2, p-1. Operands also include the point at infinity in representations other than the constructor's (P + (-P), [n]G, (t^2, t^3, 0)) and pairs of different points with the same y (solved by PlanField).",
     note="Trusted: TLC/SANY, BigNat Java override (cross-checked by MC_BigNat in the same check), the hook wrappers exposing crate-private field functions and the table. "
          "Nothing is claimed proved for all 256-bit operands; real-size coverage is boundary/witness/random conformance.",
     technique="TLC exhaustive toy models of the transcribed Jacobian/Montgomery code + TLA+ trace validation on denotations at real size (table exhaustive)",
@@ -407,14 +407,14 @@ MANIFEST_TEXT["C14"] = dict(
     text="The sampler is specified as a machine (Rng.tla: Draw, Accept only in [1, order-1], one scalar per operation) and model-checked on a toy range with a negative control. At real size "
          "thousands of randomized operations (SM2 keygen/sign/encrypt/exchange, SM9 keygen x3/sign/encrypt/exchange) run under the RNG hooks in two processes: every accepted candidate must be in "
          "range and be the last draw, the scalar actually used (k recovered as s(1+d)+rd from signatures, or [k]G compared) must be the accepted draw, no scalar may repeat within or across processes, "
-         "per-bit frequencies within 8 sigma; injected candidates 0, order, order+1, order+2, p-2, p-1, p, 2^256-1 must never be accepted. For SM9 the accepted draw is tied to what the operation used: TraceRng instantiates the SM9 specification and checks Ppub-e = [k]P1, C1 / R_A / R_B = [k]Q and S = [(k-h)]ds; an encryption whose first scalar gives an all-zero K1 must show two accepted draws. Every scripted operation is offered every out-of-range candidate, including values that a comparison skipping one limb takes for smaller.",
+         "per-bit frequencies within 8 sigma; injected candidates 0, order, order+1, order+2, p-2, p-1, p, 2^256-1 must never be accepted. For SM9 the accepted draw is tied to what the operation used: TraceRng instantiates the SM9 specification and checks Ppub-e = [k]P1, C1 / R_A / R_B = [k]Q and S = [(k-h)]ds; an encryption whose first scalar gives an all-zero K1 must show two accepted draws. Every scripted operation is offered every out-of-range candidate, including values that a comparison skipping one limb takes for smaller. Bit frequencies are also tested PER OPERATION with the exact per-bit probability of a uniform scalar on [1, order-1] (BigNat arithmetic), so a bias confined to one call site shows.",
     note="Assumes the hook sits where the 32 generator bytes become a candidate. Bias is a counting test; OS seeding is observed only through non-repetition across processes.",
     technique="TLC model of the sampler + TLA+ trace validation of hook-recorded draws (range, freshness, used = drawn, counting test)",
 )
 MANIFEST_TEXT["C16"] = dict(
     text="mod_n_from_hash is judged on Ha = q(N-1)+rem for rem in {0,1,2,N-3,N-2} x boundary/random quotients generated by the specification (PlanSM9; includes q = 1, 45..47), structured and "
          "random 40-byte inputs; H1/H2 wrappers on identities of 0..300 bytes; extraction of signing / encryption / exchange keys for Annex, edge, random master keys and master keys crafted by the "
-         "specification as N - H1(ID||hid) (extraction must report failure), compared with [k(H1+k)^-1]P on denotations.",
+         "specification as N - H1(ID||hid) (extraction must report failure), compared with [k(H1+k)^-1]P on denotations. The plan also crafts master keys for which the inverse (H1+k)^-1 or the extraction scalar is a short value, and searches identities whose H1 has a leading zero byte.",
     note="Trusted: as C09 (Annex extraction values as ASSUMEs).",
     technique="TLA+ trace validation with TLC; boundary inputs and crafted master keys generated by the specification (E2 plan)",
 )
@@ -430,7 +430,7 @@ MANIFEST_TEXT["C20"] = dict(
          "(SM2 verify, raw / ASN.1 decrypt, point and key decoders for bytes, hex, DER, PEM; SM4 construction, block and mode decryption, IV and key arguments; SM9 decrypt, verify, hash-to-range, "
          "H1, both KDFs) with every length 0..200 (quick: 0..70 and selected) x zero / 0xFF / random content, every truncation and single-byte corruption of valid encodings, boundary private keys "
          "0, 1, n-2, n-1, n, n+1, 2^256-1 followed by sign/verify and encrypt/decrypt, over-long identities, arbitrary (h, S) -- each under panic capture and a 20 s watchdog on a worker thread, "
-         "release build with overflow checks. E1: signing terminates under a fair source for every key the constructor admits (liveness, toy group), with the d = n-1 lasso as negative control.",
+         "release build with overflow checks. E1: signing terminates under a fair source for every key the constructor admits (liveness, toy group), with the d = n-1 lasso as negative control. Hash-to-range / KDF helpers at every length to 1100 (thorough 2200), message-consuming operations at ladders around 512..4096 minus the framing, degenerate values the constructors accept (Q = O, R = O, S = O).",
     note="Trusted: the harness's panic capture / watchdog. One known finding (mod_n_from_hash on inputs shorter than 40 bytes) is listed in known_findings.json.",
     technique="fault enumeration with TLA+ trace validation (total outcome specification) + TLC liveness check of the signing retry loop",
 )
